@@ -5,6 +5,7 @@ import (
 	"encoding/binary"
 	"encoding/json"
 	"fmt"
+	"math"
 	"math/big"
 	"strings"
 	"time"
@@ -310,7 +311,14 @@ func (v *sshCertValidityValidator) Valid(cert *ssh.Certificate, opts SignSSHOpti
 
 	// To not take into account the backdate, time.Now() will be used to
 	// calculate the duration if ValidAfter is in the past.
-	dur := time.Duration(cast.Int64(cert.ValidBefore-cert.ValidAfter)) * time.Second
+	//
+	// A validity longer than what a time.Duration can hold would wrap around in
+	// the multiplication below and must be rejected here.
+	secs := cert.ValidBefore - cert.ValidAfter
+	if secs > uint64(math.MaxInt64/int64(time.Second)) {
+		return errs.Forbidden("requested duration of %d seconds is greater than maximum accepted duration for selected provisioner of %s", secs, maxDur+opts.Backdate)
+	}
+	dur := time.Duration(cast.Int64(secs)) * time.Second
 
 	switch {
 	case dur < minDur:
